@@ -23,6 +23,8 @@ type Mutant struct {
 	Expect string // substring that must occur in a reported "rule=… construct=…" line
 	// More lists additional edits applied together (two cooperating sites).
 	More []Edit
+	// Benign marks a behaviour-preserving variant: the check must stay silent on it.
+	Benign bool
 }
 
 type Edit struct {
@@ -73,7 +75,7 @@ func mutantOverlay(prop, name string) (map[string][]byte, error) {
 
 type MutantResult struct {
 	Name     string `json:"name"`
-	Outcome  string `json:"outcome"` // killed | unkilled | inapplicable | wrong-report | broken
+	Outcome  string `json:"outcome"` // killed | unkilled | inapplicable | wrong-report | broken | silent | false-alarm
 	Expected string `json:"expected"`
 	Reported string `json:"reported,omitempty"`
 }
@@ -111,6 +113,15 @@ func runMutants(prop, verif string) []MutantResult {
 			switch {
 			case code == 3:
 				r.Outcome = "inapplicable"
+			case m.Benign && code == 0:
+				r.Outcome = "silent"
+				r.Expected = "(benign variant: no report)"
+			case m.Benign && code == 1:
+				r.Outcome = "false-alarm"
+				r.Expected = "(benign variant: no report)"
+				if len(reports) > 0 {
+					r.Reported = reports[0]
+				}
 			case code == 0:
 				r.Outcome = "unkilled"
 			case code == 1:
@@ -155,7 +166,7 @@ func runSelfTest(prop, verif string) int {
 	bad := 0
 	for _, r := range res {
 		fmt.Printf("mutant %-40s %-12s expect=%q %s\n", r.Name, r.Outcome, r.Expected, r.Reported)
-		if r.Outcome != "killed" && r.Outcome != "inapplicable" {
+		if r.Outcome != "killed" && r.Outcome != "inapplicable" && r.Outcome != "silent" {
 			bad++
 		}
 	}
